@@ -3,7 +3,7 @@ import random
 
 from . import tlc, tracecheck, treerec, splitfam
 from .core import MachineryError, uncps, cps
-from .spell import spell, checked_pools
+from .spell import spell, checked_pools, vary_inner_ws
 from .lexrec import sigma_strings, SIGMA_QUICK, random_unicode
 
 TAG_SPELL = {'lp': ['('], 'rp': [')'], 'lb': ['['], 'rb': [']'], 'case': ['case', 'CASE'],
@@ -17,7 +17,7 @@ def spell_tags(tags, rng, canonical=False):
     parts = []
     prev = None
     for t in tags:
-        s = TAG_SPELL[t][0] if canonical else rng.choice(TAG_SPELL[t])
+        s = TAG_SPELL[t][0] if canonical else vary_inner_ws(rng.choice(TAG_SPELL[t]), rng)
         if prev is not None and t != 'ws' and prev != 'ws':
             if t == 'lb' and prev in ('x', 'rp', 'rb'):
                 pass                      # x[ : array subscript bracket (Punctuation)
